@@ -87,13 +87,31 @@ def run_iters(N, start, fl, st, ml, with_base=True, only_base=False):
             return {}
         return dict(filter_=lambda n: lab(n) in fls, stop=lambda n: lab(n) in sts, maxlevel=None if ml == NOMAX else ml)
 
+    def consume(cls, kw):
+        """The iterator protocol, not just one pass: a for-loop left with break, the rest taken with list(), and an
+        exhausted iterator stays exhausted; iter(it) is it.  Must give the same items as one plain pass."""
+        plain = list(cls(start, **kw))
+        it = cls(start, **kw)
+        items = []
+        for x in it:
+            items.append(x)
+            break
+        same_obj = iter(it) is it
+        items += list(it)
+        again = list(it)
+        def ids(seq):       # identity only: never compare nodes with ==
+            return [tuple(id(y) for y in x) if isinstance(x, tuple) else id(x) for x in seq]
+
+        if not (ids(items) == ids(plain) and same_obj and len(again) == 0):
+            return items + ["<protocol>"] + list(again)       # observable difference: reported as the observed result
+        return plain
+
     def all_(base):
         kw = mk(base)
-        return {"pre": [lab(x) for x in PreOrderIter(start, **kw)],
-                "post": [lab(x) for x in PostOrderIter(start, **kw)],
-                "level": [lab(x) for x in LevelOrderIter(start, **kw)],
-                "groups": [[lab(x) for x in g] for g in LevelOrderGroupIter(start, **kw)],
-                "zigzag": [[lab(x) for x in g] for g in ZigZagGroupIter(start, **kw)]}
+        flat = lambda cls: [lab(x) if not isinstance(x, str) else x for x in consume(cls, kw)]
+        grp = lambda cls: [[lab(x) for x in g] if not isinstance(g, str) else [g] for g in consume(cls, kw)]
+        return {"pre": flat(PreOrderIter), "post": flat(PostOrderIter), "level": flat(LevelOrderIter),
+                "groups": grp(LevelOrderGroupIter), "zigzag": grp(ZigZagGroupIter)}
 
     res = None if only_base else all_(False)
     base = all_(True) if with_base else None
